@@ -1,7 +1,7 @@
 SPECIFICATION Spec
 CONSTANTS
-  Alphabet = {"1", "2", "=", "<>", "&", "+", "-", "*", "/", "^", "%", "(", ")"}
-  MaxLen = 7
+  Alphabet = {"A1", ",", "(", ")", "SUM("}
+  MaxLen = 9
   EmitObl = TRUE
 INVARIANT TypeOK
 INVARIANT Agree
